@@ -45,7 +45,7 @@ AuthInvalid(r) ==
 
 \* ---- positional arguments, local, filter, cluster answer -----------------
 Pick(r, kind, all, none) == IF kind \in r.args THEN all ELSE {none}
-AnsSet(r) == IF r.name = "Add" THEN {"ok"}
+AnsSet(r) == IF r.name = "Add" THEN AddAnswers
              ELSE IF r.nf # r.errst THEN {"ok", "err", "notfound"} ELSE {"ok", "err"}
 
 PosCases(r, ctx) ==
@@ -95,6 +95,13 @@ WithA(r, as, o) == {[CanonR(r) EXCEPT !.a = a, !.o = o] : a \in as}
 Open  == <<"open", "missing">>
 Right == <<"auth", "right">>
 
+\* add outcomes: buffered / streaming x ok, rejected while adding, cluster failure at each step of the pipeline
+AddOutcomes(r) ==
+    {[CanonR(r) EXCEPT !.cfg = ctx[1], !.cred = ctx[2], !.ans = an, !.o = o,
+                       !.a = [BaseA EXCEPT !["stream"] = st, !["chunker"] = ch, !["alocal"] = lo]] :
+        ctx \in {Open, Right}, an \in AddAnswers, o \in {BaseO, FullO}, st \in {"absent", "true", "false"},
+        ch \in {"absent", "size1024", "bogus"}, lo \in {"absent", "true"}}
+
 \* ---- everything for one route / one pattern -------------------------------
 RouteCases(r, level) ==
     PosCases(r, Open) \cup PosCases(r, Right) \cup AuthInvalid(r)
@@ -105,7 +112,7 @@ RouteCases(r, level) ==
             THEN WithO(r, Open, Singles(FullO)) \cup WithO(r, Open, OptPairs)
             ELSE {})
     \cup (IF r.name = "Add"
-            THEN WithA(r, AddSingles, BaseO) \cup WithA(r, AddSingles, FullO)
+            THEN WithA(r, AddSingles, BaseO) \cup WithA(r, AddSingles, FullO) \cup AddOutcomes(r)
                  \cup (IF level = "thorough" THEN WithA(r, AddPairs, BaseO) ELSE {})
             ELSE {})
     \cup (IF level = "thorough" /\ r \in CarryRoutes
@@ -125,7 +132,9 @@ ClientOpt(n) ==
       [] n = "repl" -> {"absent"} [] n = "shard" -> {"absent", "k1024", "big"}
       [] n = "ualloc" -> {"absent", "one", "two", "qm", "dup"}
       [] n = "expire" -> {"absent", "at", "atfrac", "atpast"} [] n = "meta" -> OptValid("meta")
-      [] n = "update" -> {"absent", "v0", "v1"} [] n = "origins" -> {"absent", "one", "two", "onlyp2p"}
+      [] n = "update" -> {"absent", "v0", "v1"}
+      \* nopeer: a well-formed multiaddress the client sends and the server refuses (400)
+      [] n = "origins" -> {"absent", "one", "two", "onlyp2p", "nopeer"}
 ClientPairs == PairsOver(BaseO, ClientOpt)
 ClientFull == [FullO EXCEPT !["expire"] = "at"]
 
@@ -153,6 +162,10 @@ ClientCases(r) ==
                     o \in ClientPairs \cup {ClientFull}, a \in {BaseA}}
                  \cup {[CanonR(r) EXCEPT !.via = "client", !.o = o, !.a = a] :
                     o \in {BaseO, ClientFull}, a \in ClientAddSingles}
+                 \cup {[CanonR(r) EXCEPT !.via = "client", !.cfg = ctx[1], !.cred = ctx[2], !.ans = an,
+                                         !.o = o, !.a = [BaseA EXCEPT !["chunker"] = ch]] :
+                    ctx \in ClientCtx, an \in AddAnswers, o \in {BaseO, [BaseO EXCEPT !["origins"] = "nopeer"]},
+                    ch \in {"absent", "bogus"}}
             ELSE {})
 
 =============================================================================
